@@ -52,8 +52,8 @@ def build_pools(ck, tier, rnd, langs=gen.LANGS, tag="x"):
         # titles made of function words only ("The Who", "Der Die Das") and of one-letter words only ("U.S.A.", "Q & A")
         fw_all = [text(w["w"]) for w in gen.LANGTAB[lang]["function_words"] if " " not in text(w["w"])]
         for _k in range(4 if fw_all else 0):
-            ws_ = rnd.sample(fw_all, min(len(fw_all), rnd.randint(2, 3)))
-            ts.append(" ".join(w.capitalize() if rnd.random() < 0.5 else w for w in ws_))
+            ws_ = rnd.sample(fw_all, min(len(fw_all), rnd.randint(2, 4)))
+            ts.append(" ".join(w.capitalize() if rnd.random() < 0.5 else w for w in ws_) + rnd.choice(["", "", "!", "?", "."]))
         sl = gen.script_letters(lang)
         ts += [".".join(rnd.sample(sl, 3)).upper() + ".", rnd.choice(sl).upper() + " & " + rnd.choice(sl).upper()]
         # the special shapes make up roughly a quarter of every pool
